@@ -34,6 +34,9 @@ func c08Filters(r *rand.Rand, base int64) []*mocrelay.ReqFilter {
 			f.Tags = map[string][]string{"t": {"v1"}}
 		case 4:
 			f.Since = vk.Ptr(base + 5)
+			if base == c08Wide {
+				f.Since = vk.Ptr(int64(0))
+			}
 		}
 		if r.IntN(2) == 0 {
 			f.Limit = vk.Ptr(int64(r.IntN(4)))
@@ -46,14 +49,21 @@ func c08Filters(r *rand.Rand, base int64) []*mocrelay.ReqFilter {
 	return []*mocrelay.ReqFilter{mk()}
 }
 
+// c08Wide marks a session whose timestamps are spread over the whole int64 range (differences
+// between two of them do not fit into an int64).
+const c08Wide = math.MinInt64 + 77
+
 func c08Event(r *rand.Rand, tag string, base int64) *mocrelay.Event {
+	if base == c08Wide {
+		base = vk.Pick(r, []int64{math.MinInt64, -5, 0, 1 << 62, math.MaxInt64 - 9})
+	}
 	return vk.Seal(&mocrelay.Event{Kind: vk.Pick(r, []int64{1, 1, 7}), Pubkey: vk.Pick(r, c08Authors), CreatedAt: base + int64(r.IntN(10)),
 		Content: tag, Tags: []mocrelay.Tag{{"t", vk.Pick(r, []string{"v1", "v2"})}}})
 }
 
 func TestVerif_C08(t *testing.T) {
 	rep := vk.NewReport(t, "C08", "exploration")
-	rep.Rule = "NewMergeHandler over 2-5 (one handler in sixty: 60-109) scripted children; an event shared by several children is handed out as the same object or as equal copies; per REQ each child plays a seeded script: stored events (sorted or not, matching or not, shared with other children), its EOSE, then live events carrying unique (child, sequence) marks, with seeded yields/sleeps; timestamps come from a ten-second window that usually starts at 1000 and sometimes at 0, below 0 or at either end of the int64 range; the client issues 1-6 REQs per session, CLOSEs at seeded points (before/around/after the EOSE), re-uses a subscription id only after its EOSE; child emissions and client receipts are stamped on one logical clock and judged offline per (sub id, generation): exactly one EOSE after every child's own (none when a child had received the CLOSE before the last child EOSE was sent), pre-EOSE events are child emissions that match the filters, pairwise distinct, non-increasing in created_at, at most n for a single filter with limit n, post-EOSE emissions all arrive equal and in child order; non-trivial = a generation with at least two children that emitted events; distinct = distinct (children, EOSE order, drop reasons, close class) signatures"
+	rep.Rule = "NewMergeHandler over 2-5 (one handler in sixty: 60-109) scripted children; an event shared by several children is handed out as the same object or as equal copies; per REQ each child plays a seeded script: stored events (sorted or not, matching or not, shared with other children), its EOSE, then live events carrying unique (child, sequence) marks, with seeded yields/sleeps; timestamps come from a ten-second window that usually starts at 1000 and sometimes at 0, below 0, at either end of the int64 range, or is replaced by timestamps spread over the whole range; the client issues 1-6 REQs per session, CLOSEs at seeded points (before/around/after the EOSE), re-uses a subscription id only after its EOSE; child emissions and client receipts are stamped on one logical clock and judged offline per (sub id, generation): exactly one EOSE after every child's own (none when a child had received the CLOSE before the last child EOSE was sent), pre-EOSE events are child emissions that match the filters, pairwise distinct, non-increasing in created_at, at most n for a single filter with limit n, post-EOSE emissions all arrive equal and in child order; non-trivial = a generation with at least two children that emitted events; distinct = distinct (children, EOSE order, drop reasons, close class) signatures"
 	defer rep.Finish()
 	pc := &pointCtl{sleep: true, only: "merge."}
 	mocrelay.SetVerifPoint(pc.fn)
@@ -84,7 +94,7 @@ func TestVerif_C08(t *testing.T) {
 			evn := 0
 			// the ten-second window the timestamps of this session are drawn from: usually
 			// 1000.., sometimes around zero or at the ends of the int64 range
-			base := vk.Pick(r, []int64{1000, 1000, 1000, 1000, 0, -4, -9, math.MinInt64, math.MaxInt64 - 9})
+			base := vk.Pick(r, []int64{1000, 1000, 1000, 1000, 0, -4, -9, math.MinInt64, math.MaxInt64 - 9, c08Wide})
 			if base != 1000 {
 				rep.Count("sessions_with_boundary_timestamps", 1)
 			}
